@@ -1,0 +1,99 @@
+//go:build verif
+
+/*
+Copyright (c) Meta Platforms, Inc. and affiliates.
+Licensed under the Apache License, Version 2.0 (the "License");
+you may not use this file except in compliance with the License.
+You may obtain a copy of the License at
+    http://www.apache.org/licenses/LICENSE-2.0
+Unless required by applicable law or agreed to in writing, software
+distributed under the License is distributed on an "AS IS" BASIS,
+WITHOUT WARRANTIES OR CONDITIONS OF ANY KIND, either express or implied.
+See the License for the specific language governing permissions and
+limitations under the License.
+*/
+
+package verifhook
+
+import "sync/atomic"
+
+// Enabled reports whether the hooks are compiled in.
+const Enabled = true
+
+// Handler is implemented by a simulator. A guard, when not nil, tells whether
+// the caller could proceed without blocking (it probes the real lock).
+type Handler interface {
+	Yield(point string, guard func() bool)
+	Enter(name string)
+	Exit()
+	Event(name string, args ...interface{})
+}
+
+type holder struct{ h Handler }
+
+var cur atomic.Value // of holder
+
+// Attach installs h (nil detaches). Safe for concurrent use.
+func Attach(h Handler) { cur.Store(holder{h}) }
+
+func get() Handler {
+	v := cur.Load()
+	if v == nil {
+		return nil
+	}
+	return v.(holder).h
+}
+
+// Yield is a scheduling point.
+func Yield(point string) {
+	if h := get(); h != nil {
+		h.Yield(point, nil)
+	}
+}
+
+// YieldLock is a scheduling point placed before l.Lock().
+func YieldLock(point string, l TryLocker) {
+	if h := get(); h != nil {
+		h.Yield(point, func() bool {
+			if l.TryLock() {
+				l.Unlock()
+				return true
+			}
+			return false
+		})
+	}
+}
+
+// YieldRLock is a scheduling point placed before l.RLock().
+func YieldRLock(point string, l TryRLocker) {
+	if h := get(); h != nil {
+		h.Yield(point, func() bool {
+			if l.TryRLock() {
+				l.RUnlock()
+				return true
+			}
+			return false
+		})
+	}
+}
+
+// Enter names the calling goroutine as a simulated task and yields.
+func Enter(name string) {
+	if h := get(); h != nil {
+		h.Enter(name)
+	}
+}
+
+// Exit marks the calling goroutine's task as finished.
+func Exit() {
+	if h := get(); h != nil {
+		h.Exit()
+	}
+}
+
+// Event records an observation.
+func Event(name string, args ...interface{}) {
+	if h := get(); h != nil {
+		h.Event(name, args...)
+	}
+}
